@@ -107,12 +107,27 @@ class RealWorld:
             self.grid.overlapping = ov if ov else None
         else:
             self.grid = Grid(desc["rows"], desc["cols"], overlapping=ov if ov else None)
-        self.agent_list = [make_agent(i, a) for i, a in enumerate(desc["agents"])]
+        # a history (`enc0`): the agents are CONSTRUCTED with other encodings (a permutation of the final ones among
+        # the agents, so the set of encodings in the simulation is the same) and get their final encodings through
+        # the public `encoding` setter once the property module has built its components (`finish`): a component
+        # reads an agent's current encoding, not one it saw at construction.  The state is loaded after that.
+        enc0 = desc.get("enc0")
+        self.agent_list = [make_agent(i, dict(a, enc=enc0[i]) if enc0 else a) for i, a in enumerate(desc["agents"])]
         self.agents = {a.id: a for a in self.agent_list}
         self.idx = {a.id: i for i, a in enumerate(self.agent_list)}
         self.grid.reset()
-        if desc.get("state") is not None:
+        self._unfinished = bool(enc0)
+        if desc.get("state") is not None and not enc0:
             self.set_state(desc["state"])
+
+    def finish(self):
+        """see `enc0` above; a no-op otherwise"""
+        if self._unfinished:
+            self._unfinished = False
+            for a, spec in zip(self.agent_list, self.desc["agents"]):
+                a.encoding = int(str(spec["enc"]))
+            if self.desc.get("state") is not None:
+                self.set_state(self.desc["state"])
 
     def set_state(self, state):
         """put the agents where the description says (bypassing the placement components)"""
@@ -178,6 +193,18 @@ def _rng(v, world):
 
 # ----------------------------------------------------------------------------------------------
 # generators of legal worlds
+
+def maybe_enc0(rng, desc, p=0.1):
+    """with probability p: the history `enc0` (see RealWorld) - the agents are constructed with a permutation of
+    their encodings and get the final ones through the public setter after the components were built"""
+    encs = [a["enc"] for a in desc["agents"]]
+    if len(set(encs)) > 1 and rng.random() < p:
+        enc0 = list(encs)
+        rng.shuffle(enc0)
+        if enc0 != encs:
+            desc["enc0"] = enc0
+    return desc
+
 
 def gen_overlap(rng, encs):
     """random raw overlap table over the encodings, possibly one-sided / int-valued-like"""
